@@ -91,6 +91,12 @@ Error:
     // nobody is going to free, and freezes the queue's content.
     channel_accept_writes(&self->in, 0);
     channel_read_unmap(&self->in, &self->reader, 0);
+    // Discard what is left so it does not reach the next acquisition.
+    do {
+        slice = make_vfslice(channel_read_map(&self->in, &self->reader));
+        channel_read_unmap(
+          &self->in, &self->reader, (uint8_t*)slice.end - (uint8_t*)slice.beg);
+    } while (slice.end > slice.beg);
     storage_stop(self->storage);
     self->is_running = 0;
     self->is_stopping = 0;
